@@ -31,6 +31,8 @@ BOUND = {
     "quick": "18 size vectors x 16 sparse patterns x 12 select variants x 3 placements x 2 label modes (rotated); external features subsets <=2; external_choices grids <=3 rows x 3 optional columns (all 584 patterns) x 2 header modes",
     "thorough": "same lists space with all label modes and placements unrotated; external feature subsets <=3; grids <=3 rows",
 }
+# as-built additions to the bound (kept next to BOUND so that the evidence reports them)
+BOUND = {k: v + "; plus: " + "list names with a dot next to their stem; a user-written 'other' choice at every position with or_other; rows of different lists interleaved (round-robin / reversed); several pulldata() calls per cell" for k, v in BOUND.items()}
 
 LISTS = ["c", "c1", "d"]
 VARIANTS = ["plain", "filter", "rand", "randseed", "randseedref", "multi", "rank", "or_other", "shared", "search",
